@@ -6,14 +6,20 @@ first a clean run records the filesystem call trace, then one run per (fault kin
 position), a seeded sample of pairs, and faults that persist for r = 2 .. K+1
 consecutive attempts of the same call.
 
-Every run is judged twice:
-  * the property itself: the call raised, or the whole scratch tree (every file classified
-    by the rows it holds, metadata files by the parts they describe) equals the fault-free
-    tree and the dataset reads back with exactly the input rows; after a raised run a
-    repeat with overwrite=True and no faults must give the fault-free dataset;
-  * correspondence: Model/Retry.v `packF`, evaluated by the Coq kernel on the same
-    schedule, must predict the same outcome class, the same final (or aborted) tree and the
-    same call trace -- wherever the model is deterministic about it (see `comparable`).
+Every run is judged on public observations (the PRIMARY verdict):
+  * the call raised, or the whole scratch tree (every file classified by the rows it holds,
+    metadata files by the parts they describe) equals the fault-free tree and the dataset
+    reads back with exactly the input rows; after a raised run a repeat with overwrite=True
+    and no faults must give the fault-free dataset; the fault-free tree itself must be the
+    one Model/Retry.v predicts for the observed assignment.
+  Fault positions are positions of the REAL run's own recorded call trace.
+As an EXTRA (counted in the evidence, never a violation by itself) Model/Retry.v `packF` is
+evaluated by the Coq kernel on the same schedule and its outcome class, final / aborted tree
+and complete call trace are compared: `trace-differs-outcomes-agree` and
+`model-outcome-differs-on-different-calls` stay 0 as long as the code makes exactly the calls
+the model transcribes; a harmless rewrite (extra / reordered calls, eager or lazy retries)
+moves runs into these counters.  Only when the model makes exactly the same calls as the real
+run and still predicts another outcome is that a violation (`model-differs`).
 """
 import json
 import os
@@ -272,8 +278,8 @@ def judge(rep, st, col, clean, o, label, plan_desc):
     asg, cfg = st.config(o)
     tt = trace_term(o.trace)
     if tt is None:
-        rep.violation('trace:unknown-op', f'unmodelled filesystem call in the trace: '
-                      f'{[t for t in o.trace if t[0] not in OPK][:3]}', meta)
+        # a filesystem method the model has no name for: the run is judged by the property only
+        rep.count('not-compared-with-model:unmodelled-call')
     else:
         cmp_all = all(comparable(f[1], f[2], f[3], f[0] > clean['final_start'], st.mode) for f in o.fired)
         partial_rm_abort = raised and any(f[1] == 'partial' and f[2] == 'rm' for f in o.fired)
@@ -305,6 +311,51 @@ def judge(rep, st, col, clean, o, label, plan_desc):
             col.pk_cases.append((tree, cfg2, U.asg_term(asg2), tree2, clean['parts']))
             col.pk_metas.append({**meta, 'phase': 'recover'})
     return raised
+
+
+def _flags(case, cmp_tree, cmp_trace):
+    return (bool(case[0]) and cmp_tree, cmp_trace) + tuple(case[2:])
+
+
+def model_verdicts(rep, col):
+    """Model/Retry.v against the real runs.  PRIMARY (a violation): the model's final tree for
+    the fault-free run, and any run on which the model makes exactly the same filesystem calls
+    as the real code yet predicts another outcome.  EXTRA (counted, never a violation): the
+    exact call trace, and the outcome class (raised / returned) of a faulted run whose calls
+    differ from the model's -- a harmless rewrite may add, drop or reorder calls and may retry
+    more or less eagerly; what it must keep is judged by the property checks in `judge`."""
+    cases, results = col.cases, col.results
+    b1 = C.coq_mismatches(IMPORTS, 'packF_check', CASE_TY, RES_TY, cases, results, shard=40)
+    # ignore the trace: which of them still disagree on the outcome (class or tree)?
+    c2 = [_flags(cases[i], True, False) for i in b1]
+    b2 = [b1[j] for j in C.coq_mismatches(IMPORTS, 'packF_check', CASE_TY, RES_TY, c2, [results[i] for i in b1], shard=40)]
+    rep.count('trace-differs-outcomes-agree', len(b1) - len(b2))
+    # for those: does the model at least make the same calls?
+    c3 = [_flags(cases[i], False, True) for i in b2]
+    t_a = set(C.coq_mismatches(IMPORTS, 'packF_check', CASE_TY, RES_TY, c3, [(True, True, True)] * len(c3), shard=40))
+    t_b = set(C.coq_mismatches(IMPORTS, 'packF_check', CASE_TY, RES_TY, c3, [(False, True, True)] * len(c3), shard=40))
+    seen = set()
+    for j, i in enumerate(b2):
+        m = col.metas[i]
+        trace_ok = not (j in t_a and j in t_b)
+        clean = m.get('label') == 'clean'
+        if not clean and not trace_ok:
+            rep.count('model-outcome-differs-on-different-calls')
+            continue
+        kinds = '+'.join(sorted({f[1] + ':' + f[2] for f in m.get('fired', [])})) or 'clean'
+        sig = ('clean-run-model-differs' if clean else f'model-differs:{kinds}')
+        if sig in seen or len(seen) >= 8:
+            continue
+        seen.add(sig)
+        c = cases[i]
+        model = C.coq_eval(IMPORTS, f'packF_check {C.coq(c)}')
+        mtrace = C.coq_eval(IMPORTS, f'packF_trace {C.coq(c[2])} {C.coq(c[3])} {C.coq(c[4])} {C.coq(c[5])} {C.coq(c[6])}')
+        rep.violation(sig, ('the tree left by the fault-free run differs from Model/Retry.v ' if clean else
+                            'the model makes the same filesystem calls as the faulted real run but predicts '
+                            'another outcome ') +
+                      f'(real returned={results[i][0]}; model says (returned, tree ok, trace ok) = {model})',
+                      {**m, 'model_trace': mtrace[:4000],
+                       'real_trace': ['%d %s' % (k + 1, ' '.join(t)) for k, t in enumerate(col.raw[i])]})
 
 
 def find_setups(rep, root, tier):
@@ -344,13 +395,13 @@ def run_setup(rep, st, col, tier):
     cl = U.Classifier(st.root, st.df, o.cells)
     parts = [F.cells_term(pc[0]) for _, pc in cl.dataset_parts(os.path.join(st.root, U.DS))]
     L = len(o.trace)
-    final_start = max(j for j, t in enumerate(o.trace) if t[0] == 'exists' and t[1] == U.DS)  # 0-based index
+    final_start = max([j for j, t in enumerate(o.trace) if t[0] == 'exists' and t[1] == U.DS], default=len(o.trace))
     clean = {'f0': f0, 'tree': tree, 'norm': norm_tree(tree), 'cells': dict(o.cells), 'trace': o.trace,
              'final_start': final_start, 'parts': parts, 'ref': st.metadata_ref(tree)}
     got = o.frame.compute()
     if U.row_key(got) != st.want_rows:
         rep.violation('clean-run-rows', 'the fault-free run does not return the input rows', meta)
-    col.cases.append((True, True, C.Nat(st.K), [], f0, cfg, U.asg_term(asg), tree, trace_term(o.trace)))
+    col.cases.append((True, True, C.Nat(st.K), [], f0, cfg, U.asg_term(asg), tree, trace_term(o.trace) or []))
     col.results.append((True, True, True))
     col.metas.append({**meta, 'plan': 'none', 'label': 'clean'})
     col.raw.append(o.trace)
@@ -432,25 +483,9 @@ def run(rep):
         shutil.rmtree(root, ignore_errors=True)
     import time
     t_runs = time.time() - rep.t0
-    bad = C.coq_mismatches(IMPORTS, 'packF_check', CASE_TY, RES_TY, col.cases, col.results, shard=40)
+    model_verdicts(rep, col)
     rep.extra['seconds_real_runs'] = round(t_runs, 1)
     rep.extra['seconds_model_eval'] = round(time.time() - rep.t0 - t_runs, 1)
-    seen = set()
-    for i in bad:
-        m = col.metas[i]
-        kinds = '+'.join(sorted({f[1] + ':' + f[2] for f in m.get('fired', [])})) or 'clean'
-        sig = f'model-differs:{kinds}'
-        if sig in seen:
-            continue
-        seen.add(sig)
-        model = C.coq_eval(IMPORTS, f'packF_check {C.coq(col.cases[i])}')
-        c = col.cases[i]
-        mtrace = C.coq_eval(IMPORTS, f'packF_trace {C.coq(c[2])} {C.coq(c[3])} {C.coq(c[4])} {C.coq(c[5])} {C.coq(c[6])}')
-        rep.violation(sig, 'outcome / tree / call trace of a faulted run differ from Model/Retry.v '
-                      f'(real returned={col.results[i][0]}; model says (returned, tree ok, trace ok) = {model})',
-                      {**m, 'model_trace': mtrace[:4000], 'real_trace': ['%d %s' % (j + 1, ' '.join(t)) for j, t in enumerate(col.raw[i])]})
-        if len(seen) >= 8:
-            break
     bad = C.coq_mismatches(U.PK_IMPORTS, 'pack_check', PK_CASE_TY, PK_RES_TY, col.pk_cases,
                            [C.Some((True, True, True))] * len(col.pk_cases), shard=40)
     for i in bad[:3]:
@@ -474,7 +509,7 @@ def replay(rep, rp):
             tree = st.snapshot(o.cells)
             cl = U.Classifier(st.root, st.df, o.cells)
             parts = [F.cells_term(pc[0]) for _, pc in cl.dataset_parts(os.path.join(st.root, U.DS))]
-            final_start = max(j for j, t in enumerate(o.trace) if t[0] == 'exists' and t[1] == U.DS)
+            final_start = max([j for j, t in enumerate(o.trace) if t[0] == 'exists' and t[1] == U.DS], default=len(o.trace))
             clean = {'f0': f0, 'tree': tree, 'norm': norm_tree(tree), 'cells': dict(o.cells), 'trace': o.trace,
                      'final_start': final_start, 'parts': parts, 'ref': st.metadata_ref(tree)}
             plan = {}
@@ -486,9 +521,8 @@ def replay(rep, rp):
             judge(rep, st, col, clean, o1, 'replay', rp.get('plan'))
     finally:
         shutil.rmtree(root, ignore_errors=True)
-    bad = C.coq_mismatches(IMPORTS, 'packF_check', CASE_TY, RES_TY, col.cases, col.results)
+    model_verdicts(rep, col)
     for v in rep.violations:
         print(v['signature'], '-', v['what'])
-    if bad:
-        print('model differs:', C.coq_eval(IMPORTS, f'packF_check {C.coq(col.cases[bad[0]])}'))
-    return not bad and not rep.violations
+    print('counts:', {k: v for k, v in rep.hist.items() if 'differs' in k or 'compared' in k})
+    return not rep.violations
